@@ -1,9 +1,22 @@
 (* C06 — automaton to regular expression. *)
 From Coq Require Import List NArith.
-From PFL Require Import Base.ListSet Spec.Enfa Spec.Regex Model.RegexFA Proofs.RegexFA.
+From PFL Require Import Base.ListSet Spec.Enfa Spec.Regex Model.RegexFA Proofs.RegexFA Model.Kleene Proofs.Kleene.
 
 (* the reference automaton of a regular expression accepts exactly its denotation; used to decide, with the
    exact equivalence check, that the expression returned by to_regex() denotes the automaton's language *)
 Theorem C06_regex_automaton : forall (r : re) (w : list N), Lang (re_fa r) w <-> den r w.
 Proof. exact re_fa_lang. Qed.
 Print Assumptions C06_regex_automaton.
+
+(* the state-elimination algorithm of EpsilonNFA.to_regex, modelled on expression trees (fresh start state when there are several
+   start states; one elimination per final state; every state other than the start and the final one removed, its paths replaced by
+   in.(loop)*.out; the closing formula (ss + se ee* es)* se ee*, or (ss)* when the start state is the final state; the union over the
+   final states): the expression denotes exactly the language of the automaton, for every well-formed automaton. *)
+Theorem C06_to_regex_model : forall (Q : Type) (E : EqDec Q) (A : enfa Q), wf A -> forall w, Lang A w <-> den (to_regex A) w.
+Proof. exact (@to_regex_correct). Qed.
+Print Assumptions C06_to_regex_model.
+
+(* to_regex().to_epsilon_nfa() closes the round trip *)
+Theorem C06_round_trip_model : forall (Q : Type) (E : EqDec Q) (A : enfa Q), wf A -> forall w, Lang (re_fa (to_regex A)) w <-> Lang A w.
+Proof. intros Q E A W w. rewrite (re_fa_lang (to_regex A) w). symmetry. exact (@to_regex_correct Q E A W w). Qed.
+Print Assumptions C06_round_trip_model.
